@@ -19,7 +19,9 @@ fn main() {
         "C08" => csem::c08(tier),
         "C09" => csem::c09(tier),
         "C04-child" => c04::child(tier, args.get(3).map(|s| s.as_str()).unwrap_or("?")),
+        "C10" => c10::run(tier),
         "C17" => c17::run(tier),
+        "C19" => c19::run(tier),
         other => {
             eprintln!("unknown check {}", other);
             2
